@@ -101,6 +101,19 @@ def gen(rng, tier):
                 if col["name"] in ("x", "w"):
                     for r_ in rng.sample(range(nrows), rng.randint(1, max(1, nrows // 4))):
                         col["values"][r_] = None
+        if case["kind"] == "random" and rng.random() < 0.06:
+            # a training column whose mean is EXACTLY zero (v, -v pairs): a fitted parameter equal to 0.0 is a fitted
+            # parameter; single rows and subsets (whose own mean is not zero) are encoded with it
+            half = [rng.randint(1, 9) for _ in range(nrows // 2)]
+            sym = [str(v) for v in half] + [str(-v) for v in half] + (["0"] if nrows % 2 else [])
+            rng.shuffle(sym)
+            for col in fr["columns"]:
+                if col["name"] == "x":
+                    col["values"] = sym
+            case["formula"] = rng.choice(["y ~ center(x) + f", "y ~ center(x):f + g", "y ~ scale(x) + (center(x) | g)",
+                                          "y ~ 0 + standardize(x) + center(x)", "y ~ center(center(x)) + h"])
+            case["extra"] = {}
+            case["kind"] = "zero-mean"
         cases.append(case)
     return cases
 
